@@ -15,11 +15,15 @@
     field name with omitted fields absent, slices as arrays element for element
     - empty elements included -, pointers as their target; this rendering
     theorem is for map-free types).  PARTIAL: narrow `flat` integers (finding D17d), the protobuf
-    forms (findings D29 / D31) and the restored-descriptor variants are decided
-    by the correspondence and the native comparison only.  How numbers, booleans and times are printed is
+    forms (findings D29 / D31) are decided by the correspondence and the native
+    comparison only.  The variant "descriptor restored through plenc" is a
+    theorem (C13_restored_through_plenc*: the Descriptor type is itself a
+    recursive plenc struct; any descriptor of any depth and width round-trips
+    through its codec and so drives the walker identically); the variant
+    restored through encoding/json is observed natively.  How numbers, booleans and times are printed is
     strconv's / time's business ([tok]). *)
 From Plenc Require Import Base Varint Wire JsonAny Codec SizeProofs RoundTripBase RoundTrip
-  Descriptor DescProofs Output JsonWalk WalkProofs.
+  Descriptor DescProofs Output JsonWalk WalkProofs Registry CorrCore DescRT JsonGrammar WalkJson.
 Open Scope N_scope.
 
 (** the walk of a codec's own encoding, in the form its wire type calls for:
@@ -50,12 +54,65 @@ Theorem C13_struct_renders_partial : forall (tok : ev -> bytes) nm n fs vs d,
 Proof. exact walk_renders_struct. Qed.
 Print Assumptions C13_struct_renders_partial.
 
+(** ... and that text is valid JSON whose content is the value's image: a
+    document of the JSON grammar (JsonGrammar.v) whose derivation yields [vtree]
+    (strings and names being byte strings, the tokens of strconv / time being
+    JSON literals) *)
+Theorem C13_walk_output_is_json_partial : forall (tok : ev -> bytes) (valid_tok : bytes -> Prop),
+  (forall e, valid_tok (tok e)) -> forall nm n fs vs d,
+  walk_ok (CStruct nm n fs) -> nomaps (CStruct nm n fs) = true -> descriptor_of (CStruct nm n fs) = Ok d ->
+  wfv (CStruct nm n fs) (VStruct vs) -> fits (CStruct nm n fs) (VStruct vs) -> wkv (CStruct nm n fs) (VStruct vs) ->
+  sok (CStruct nm n fs) (VStruct vs) ->
+  let data := enc (CStruct nm n fs) (VStruct vs) [] in
+  let w := walk d data in
+  w_out w = Ok (len data) /\
+  exists text, (do j <- o_run jout_init (map (oop_of tok) (w_ev w)); o_done j) = Ok text /\
+               jdoc valid_tok text (vtree tok (CStruct nm n fs) (VStruct vs)).
+Proof. exact walk_output_is_json. Qed.
+Print Assumptions C13_walk_output_is_json_partial.
+
 (** the root's field index, name and explicit-presence flag play no part in
     the walk (so a Descriptor embedded as a field or pointer target walks alike) *)
 Theorem C13_root_attributes_ignored : forall i n d data,
   walk (with_field i n d) data = walk d data /\ walk (with_explicit d) data = walk d data.
 Proof. intros. split; [apply walk_with_field|apply walk_with_explicit]. Qed.
 Print Assumptions C13_root_attributes_ignored.
+
+(** the Descriptor type's own codec: the model of CodecForType applied to the
+    definition of `Descriptor` gives the unfoldings [desc_codec k] ... *)
+Theorem C13_descriptor_codec : forall k,
+  codec_for dplain_cfg desc_env (2 * k + 2) (TStruct 0) [] = Ok (desc_codec k).
+Proof. exact desc_codec_for. Qed.
+Print Assumptions C13_descriptor_codec.
+
+(** ... any descriptor (depth <= the unfolding, numbers within Go's int)
+    marshalled with it and unmarshalled into a fresh Descriptor is the same
+    descriptor, and walks any data identically *)
+Theorem C13_restored_through_plenc : forall k d,
+  (ddepth d <= S k)%nat -> d_ok d -> fits (desc_codec k) (dval d) ->
+  unmarshal (desc_codec k) (marshal (desc_codec k) [] (dval d)) (zero (desc_codec k)) = Ok (dval d).
+Proof. exact descriptor_plenc_roundtrip. Qed.
+Print Assumptions C13_restored_through_plenc.
+
+Theorem C13_restored_through_plenc_walks_same : forall k d d' data,
+  (ddepth d <= S k)%nat -> d_ok d -> fits (desc_codec k) (dval d) ->
+  unmarshal (desc_codec k) (marshal (desc_codec k) [] (dval d)) (zero (desc_codec k)) = Ok (dval d') ->
+  d' = d /\ walk d' data = walk d data.
+Proof. exact restored_walks_same. Qed.
+Print Assumptions C13_restored_through_plenc_walks_same.
+
+(** non-vacuity: the descriptor of a struct with a map, a slice of structs and
+    a pointer, restored through its own codec *)
+Example C13_restored_ex :
+  let inner := CStruct (ascii "In") 2 [mkfld 0 1 (ascii "a") (CInt 32); mkfld 1 2 (ascii "b") CString] in
+  let c := CStruct (ascii "T") 3 [mkfld 0 1 (ascii "p") (CPtr inner); mkfld 1 7 (ascii "l") (CSliceLen inner);
+                                   mkfld 2 3 (ascii "m") (CMap CString (CTime false))] in
+  match descriptor_of c with
+  | Ok d => (ddepth d <= S 4)%nat /\ d_ok d /\
+            unmarshal (desc_codec 4) (marshal (desc_codec 4) [] (dval d)) (zero (desc_codec 4)) = Ok (dval d)
+  | _ => False
+  end.
+Proof. cbv zeta. vm_compute. repeat split; try lia; try discriminate. Qed.
 
 (** non-vacuity: a composite codec of the fragment with a value meeting every
     hypothesis, and its walk evaluated in the model *)
